@@ -36,7 +36,6 @@ import (
 
 const (
 	sigServer   = "C26.server-subscription-dies-with-channel"
-	sigNoAck    = "C26.republished-never-acknowledged"
 	sigGap      = "C26.republish-gives-up-at-gap"
 	sigRecreate = "C26.recreate-failure-ignored"
 )
@@ -672,6 +671,11 @@ type retransInfo struct {
 	queue       map[uint32][]retMsg // per subscription: notifications sent but lost with the connection
 	requested   map[uint32][]uint32 // per subscription: RetransmitSequenceNumber of every RepublishRequest
 	acked       map[[2]uint32]int   // (subscription, sequence number) → how often it was acknowledged after the fault
+	// the acknowledgements of the first PublishRequest after the fault that acknowledges a
+	// republished message (a request the client sent just before the connection died may
+	// still arrive after the fault was injected; it carries older acknowledgements only)
+	firstAcks [][2]uint32
+	sawFirst  bool
 }
 
 type retMsg struct {
@@ -817,8 +821,19 @@ func newScriptedBackend() (*scriptedBackend, error) {
 			if b.faulted {
 				b.after++
 				if b.rt != nil {
+					var these [][2]uint32
+					republished := false
 					for _, a := range req.SubscriptionAcknowledgements {
 						b.rt.acked[[2]uint32{a.SubscriptionID, a.SequenceNumber}]++
+						these = append(these, [2]uint32{a.SubscriptionID, a.SequenceNumber})
+						for _, m := range b.rt.queue[a.SubscriptionID] {
+							if m.seq == a.SequenceNumber {
+								republished = true
+							}
+						}
+					}
+					if republished && !b.rt.sawFirst {
+						b.rt.firstAcks, b.rt.sawFirst = these, true
 					}
 				}
 			}
@@ -1201,8 +1216,20 @@ func (e *env) republishChecks(name string, res *scenResult) {
 				del = append(del, 0) // something that is not in the queue was delivered
 			}
 		}
+		// the acknowledgements for this subscription's republished messages in the first
+		// PublishRequest after the reconnect, in order
+		var first []uint32
+		for _, a := range rt.firstAcks {
+			if a[0] == id {
+				for _, m := range q {
+					if m.seq == a[1] {
+						first = append(first, a[1])
+					}
+				}
+			}
+		}
 		line := fmt.Sprintf("republish %s %s %d", u32s(seqs), u32s(seqs), rt.nextBefore[id])
-		impl := fmt.Sprintf("delivered=%s requested=%s next=%d outcome=done ok=1", u32s(del), u32s(rt.requested[id]), res.nextAfter[id])
+		impl := fmt.Sprintf("delivered=%s requested=%s next=%d outcome=done ok=1 acks=%s", u32s(del), u32s(rt.requested[id]), res.nextAfter[id], u32s(first))
 		e.r.Count(name+" "+line, true)
 		e.r.Hit("republish:loop")
 		e.r.Compare(e.d, line, impl)
@@ -1232,14 +1259,7 @@ func (e *env) republishChecks(name string, res *scenResult) {
 				continue
 			}
 			detail := fmt.Sprintf("%s: republished notification %d/%d was handed to the application and acknowledged %d times in the %d PublishRequests that followed", name, id, sq, n, res.publishAfter)
-			sig := ""
-			if n == 0 && res.publishAfter >= 2 {
-				sig = sigNoAck
-			}
-			e.r.Fail(name, sig, detail)
-			if sig != "" {
-				e.r.Confirm(sig, detail)
-			}
+			e.r.Fail(name, "", detail)
 		}
 	}
 }
